@@ -258,6 +258,10 @@ Definition hostile_lines (u : string) (n : node) (v : val) : list string :=
          pure_line u (u ++ ".foreignarg." ++ k ++ "." ++ f ++ "." ++ i_text i) ("foreign,other," ++ i_tag i) f value
                    (refusal_spec i (untouched "foreign" zero)) [i])
       (others "foreign") ++
+  (* a foreign source with a by-value destination: both clauses refuse, either error is accepted *)
+  [ pure_line u (u ++ ".foreign.bvdst") "foreign,byvalue,copyto" "foreign" value
+      ("e=" ++ pr_err (Some by_value_error) ++ ";d=" ++ dumpb zero ++ ";same=1 || e=unsupported;d=" ++ dumpb zero ++ ";same=1")
+      [Inner "copyto" ("fcopyto;v;" ++ pr_val true zero) (ans_copyto n "v" zero v) OCopyToDst] ] ++
   (* nil forms: grouped per path, prediction only *)
   flat_map (fun f : string =>
     map (fun pt : tagged =>
